@@ -134,7 +134,8 @@ class MongoStorage(Storage):
         ]
         for field in self.condition_fields:
             field_singular = field.rstrip('s')
-            inquiry_value = getattr(inquiry, field_singular)
+            # a string starting with '$' would be read as a field path / variable in an aggregation expression
+            inquiry_value = {'$literal': getattr(inquiry, field_singular)}
             conditions.append({
                 '$anyElementTrue': [
                     {
